@@ -6,7 +6,8 @@ import os, sys, time, random
 from fractions import Fraction as F
 
 sys.path.insert(0, os.path.join(os.path.dirname(os.path.dirname(os.path.abspath(__file__))), "lib"))
-from oracle import Oracle, OracleError, secular_to_monomial, chebyshev_to_monomial   # noqa
+from oracle import (Oracle, OracleError, secular_to_monomial, chebyshev_to_monomial,   # noqa
+                    secular_to_monomial_py, chebyshev_to_monomial_py)
 
 VERBOSE = "-v" in sys.argv
 fails = []
@@ -62,8 +63,11 @@ def main():
         expect(c == [(1, 1), (2, 2), (0, 0), (0, 2), (0, 1)], "x^2-1 counts incl. boundary-straddling discs: %r" % (c,))
         cov = o.cover([(F(1), 0, F(1, 10)), (0, 0, 3), (7, 0, 1)])
         expect(sorted(map(tuple, cov)) == [(0, 1), (1,)] and o.all_covered, "x^2-1 cover %r" % (cov,))
-        cov = o.cover([(F(1), 0, F(1, 10))])
+        cov = o.cover([(F(1), 0, F(1, 10)), (F(-1), 0, F(1, 10 ** 70))])
         expect(not o.all_covered, "x^2-1: one disc does not cover both roots")
+        expect(sorted(o.uncovered) == [False, False], "x^2-1: root -1 straddles a too small disc: undecided")
+        cov = o.cover([(F(1), 0, F(1, 10)), (F(-2), 0, F(1, 2))])
+        expect(sorted(o.uncovered) == [False, True] and not o.all_covered, "x^2-1: root -1 certainly uncovered")
         expect(sorted(o.sides("re")) == ["+", "-"], "x^2-1 sides re")
         expect(o.sides("unit") == ["0", "0"], "x^2-1: roots on the unit circle straddle")
         expect(o.sides("im") == ["0", "0"], "x^2-1: real roots straddle the real axis")
@@ -107,7 +111,7 @@ def main():
         o.close()
 
     # 7. degree 30 random integer coefficients
-    o = certified("random30", [rng.randint(-1000, 1000) for _ in range(30)] + [1], target=-100, degree=30)
+    o = certified("random30", [rng.randint(-1000, 1000) for _ in range(30)] + [1], target=-30, degree=30)
     if o:
         expect(o.count([(0, 0, 2000)]) == [(30, 30)], "random30: Cauchy bound disc has all 30 roots")
         n_in = o.sides("unit").count("-"); n_out = o.sides("unit").count("+")
@@ -125,7 +129,7 @@ def main():
 
     # 9. x^n - 1
     for n in (7, 16):
-        o = certified("x^%d-1" % n, [-1] + [0] * (n - 1) + [1], degree=n, route="simple")
+        o = certified("x^%d-1" % n, [-1] + [0] * (n - 1) + [1], target=-64, degree=n, route="simple")
         if o:
             expect(o.count([(0, 0, 2), (0, 0, F(1, 2)), (1, 0, F(1, 100))]) == [(n, n), (0, 0), (1, 1)], "x^%d-1 counts" % n)
             expect(o.sides("unit") == ["0"] * n, "x^%d-1: all roots straddle the unit circle" % n)
@@ -139,10 +143,18 @@ def main():
 
     # 11. secular / Chebyshev conversions feeding the oracle
     sec = secular_to_monomial([1, 2, F(1, 2)], [0, 1, -1])       # 1/x + 2/(x-1) + (1/2)/(x+1) = 1
-    expect(sec == [(F(-1), F(0)), (F(-5, 2), F(0)), (F(-7, 2), F(0)), (F(1), F(0))], "secular numerator %r" % (sec,))
+    expect(sec == [(F(1), F(0)), (F(-5, 2), F(0)), (F(-7, 2), F(0)), (F(1), F(0))], "secular numerator %r" % (sec,))
     o = certified("secular", sec, degree=3)
     if o:
         o.close()
+    # extracted Coq conversion versus the python re-implementation, random Gaussian-rational data
+    for _ in range(5):
+        k = rng.randint(1, 6)
+        rq = lambda: (F(rng.randint(-50, 50), rng.randint(1, 20)), F(rng.randint(-50, 50), rng.randint(1, 20)))
+        aa = [rq() for _ in range(k)]; bb = [rq() for _ in range(k)]
+        expect(secular_to_monomial(aa, bb) == secular_to_monomial_py(aa, bb), "secular: Coq == python (n=%d)" % k)
+        cc = [rq() for _ in range(k + 2)]
+        expect(chebyshev_to_monomial(cc) == chebyshev_to_monomial_py(cc), "chebyshev: Coq == python (n=%d)" % (k + 1))
     ch = chebyshev_to_monomial([0, 0, 0, 1])                      # T_3 = 4x^3 - 3x
     expect(ch == [(F(0), F(0)), (F(-3), F(0)), (F(0), F(0)), (F(4), F(0))], "T_3 monomial %r" % (ch,))
     o = certified("T_5+T_2", chebyshev_to_monomial([0, 0, 1, 0, 0, 1]), degree=5)
@@ -150,8 +162,40 @@ def main():
         expect(o.count([(0, 0, F(11, 10))]) == [(5, 5)], "T_5+T_2: all roots near [-1,1]")
         o.close()
 
+    # 12. both Newton tests (exact integer arithmetic / truncated ball arithmetic) on the same input
+    o = Oracle([3, -1, 0, 2, 0, -7, 1])
+    he = o.get_hints(-80, exact_only=True)
+    ht = o.get_hints(-80)
+    expect(he.get("ok") and [f["prec"] for f in he["factors"]] == [0], "exact-only hints use prec 0")
+    expect(ht.get("ok") and all(f["prec"] > 0 for f in ht["factors"]), "default hints use the truncated test")
+    if he.get("ok") and ht.get("ok"):
+        expect(o.check_hints(he), "exact Newton test accepts")
+        ce = o.count([(0, 0, 1), (0, 0, 10)])
+        expect(o.check_hints(ht), "truncated Newton test accepts")
+        expect(o.count([(0, 0, 1), (0, 0, 10)]) == ce and ce[1] == (6, 6), "both give the same counts %r" % (ce,))
+        # a precision that is far too small must fail (or pass soundly), never crash
+        import copy
+        hl = copy.deepcopy(ht); hl["factors"][0]["prec"] = 3
+        expect(not o.check_hints(hl) and "newton" in o.why, "truncated test with 3 bits rejects (%s)" % o.why)
+    o.close()
+
+    # 13. the driver's integer parsing/printing (trusted): decimal and hex literals round-trip
+    import subprocess
+    from oracle import CERT_BIN
+    good = True
+    for nd in (1, 17, 18, 19, 37, 200):
+        a, b, s_ = rng.randint(-10 ** nd, 10 ** nd), rng.randint(-10 ** nd, 10 ** nd), rng.randint(1, 10 ** nd)
+        r = rng.randint(0, 10 ** nd)
+        body = "poly 1\n%d 1 %d 1\n%d 1 0 1\npint 1 1\n%d %d\n%d 0\nfactor 1 1\n%d %d\n%d 0\n" % (-a, -b, s_, -a, -b, s_, -a, -b, s_)
+        for lits in (("%d %d %d %d" % (a, b, r, s_)), ("%s %s %s %s" % (hex(a), hex(b), hex(r), hex(s_)))):
+            out = subprocess.run([CERT_BIN], input=body + "tinyq 0 " + lits + "\ncheck\nroots\nhexout\nroots\n",
+                                 stdout=subprocess.PIPE, text=True).stdout.split("\n")
+            good = good and out[0] == "CERT OK" and [int(x) for x in out[2].split()[1:]] == [a, b, r, s_] \
+                and [int(x, 0) for x in out[4].split()[1:]] == [a, b, r, s_]
+    expect(good, "driver integer literals round-trip (decimal and hex, up to 200 digits)")
+
     # ---- failure paths: a wrong hint must give CERT FAIL, never a wrong yes ----
-    o = Oracle(from_roots(range(1, 6)))
+    o = Oracle([-1, -1, 0, 0, 0, 1])              # x^5 - x - 1: no rational root
     h = o.get_hints(-100)
     expect(h.get("ok"), "hints for failure-path tests")
     if h.get("ok"):
@@ -182,7 +226,7 @@ def main():
         # (f) huge radius: discs overlap
         h7 = copy.deepcopy(h)
         for t in h7["factors"][0]["tiny"]:
-            t[2] = str(2 ** 110)
+            t[2] = str(2 ** 130)
         expect(not o.check_hints(h7) and "disjoint" in o.why, "overlapping discs rejected (%s)" % o.why)
         # (g) multiplicity lie
         h8 = copy.deepcopy(h); h8["factors"][0]["m"] = 2
